@@ -376,6 +376,27 @@ pub fn run(sc: &Value) -> Vec<Value> {
                     }
                     evs.push(json!({"ev": "ZBulk", "sc": id, "count": count, "ok": oks}));
                 }
+                "rawcopy" => {
+                    // raw copy of entry `idx` of a (sparse) source archive given as segments
+                    let src = Sparse::new();
+                    for seg in op["src"]["segments"].as_array().cloned().unwrap_or_default() {
+                        src.st.borrow_mut().write_at(seg[0].as_u64().unwrap(), &unhex(seg[1].as_str().unwrap()));
+                    }
+                    let want = op["src"]["len"].as_u64().unwrap_or(0);
+                    if src.st.borrow().len < want {
+                        src.st.borrow_mut().len = want;
+                    }
+                    let mut e = json!({"ev": "ZRawCopy", "sc": id, "r": "err", "usize": big_pair(0), "csize": big_pair(0)});
+                    if let Ok(mut ar) = ZipArchive::new(src.view()) {
+                        if let Ok(f) = ar.by_index_raw(op["idx"].as_u64().unwrap_or(0) as usize) {
+                            e["usize"] = big_pair(f.size());
+                            e["csize"] = big_pair(f.compressed_size());
+                            let r = w.raw_copy_file(f);
+                            e["r"] = json!(rclass(&r));
+                        }
+                    }
+                    evs.push(e);
+                }
                 "comment" => w.set_comment(String::from_utf8(bytes_of(&op["c"])).unwrap_or_default()),
                 "finish" => {
                     let r = w.finish();
